@@ -144,7 +144,7 @@ def _work(rng):
         case = _CASES[i]
         res = None
         try:
-            signal.setitimer(signal.ITIMER_REAL, CASE_TIMEOUT)
+            signal.setitimer(signal.ITIMER_REAL, getattr(chk, 'case_timeout', CASE_TIMEOUT))
             try:
                 res = chk.run(case)
             finally:
@@ -153,7 +153,7 @@ def _work(rng):
             agg['timeouts'] += 1
             res = Result()
             res.violation(chk.timeout_signature(case) if hasattr(chk, 'timeout_signature') else 'timeout',
-                          f'case did not finish within {CASE_TIMEOUT}s')
+                          f'case did not finish within {getattr(chk, "case_timeout", CASE_TIMEOUT)}s')
         except Exception as e:  # harness-level failure: never silent
             res = Result()
             res.violation('harness:' + exc_sig(e), ''.join(traceback.format_exception(e))[-1500:])
